@@ -1327,9 +1327,14 @@ impl ASN1Value {
                 if matches![**value, ASN1Value::ElsewhereDeclaredValue { .. }] =>
             {
                 if let ASN1Value::ElsewhereDeclaredValue { identifier, .. } = &**value {
+                    // the governing type first: another type may list an enumeral of the same name
                     if let Some((_, tld)) = tlds
                         .iter()
-                        .find(|(_, tld)| tld.has_enum_value(None, identifier))
+                        .find(|(_, tld)| tld.has_enum_value(type_name, identifier))
+                        .or_else(|| {
+                            tlds.iter()
+                                .find(|(_, tld)| tld.has_enum_value(None, identifier))
+                        })
                     {
                         **value = ASN1Value::EnumeratedValue {
                             enumerated: tld.name().clone(),
@@ -1340,9 +1345,14 @@ impl ASN1Value {
                 Ok(())
             }
             (ASN1Type::Enumerated(_), ASN1Value::ElsewhereDeclaredValue { identifier, .. }) => {
+                // the governing type first: another type may list an enumeral of the same name
                 if let Some((_, tld)) = tlds
                     .iter()
-                    .find(|(_, tld)| tld.has_enum_value(None, identifier))
+                    .find(|(_, tld)| tld.has_enum_value(type_name, identifier))
+                    .or_else(|| {
+                        tlds.iter()
+                            .find(|(_, tld)| tld.has_enum_value(None, identifier))
+                    })
                 {
                     *self = ASN1Value::EnumeratedValue {
                         enumerated: tld.name().clone(),
